@@ -24,8 +24,9 @@ deriving Repr, DecidableEq
 inductive SState where
   | opened            -- attached to the current transport
   | resuming          -- waits for / performs its resume on the next transport
-  | closedOk          -- closed by the application or with the connection
-  | closedErr         -- closed with an error (resume refused or cut)
+  | closedOk          -- closed by the application (stream Close), notified
+  | closedErr         -- closed with an error (resume refused or cut), notified
+  | closedConn        -- ended by the connection's Close (no stream notification: the connection's own is the notice)
 deriving Repr, DecidableEq
 
 structure Stream where
@@ -38,15 +39,15 @@ structure Stream where
 deriving Repr, DecidableEq
 
 inductive ResumeAnswer where
-  | ok | refused | cut
+  | ok | refused
 deriving Repr, DecidableEq
 
 inductive Ev where
   | openStream (dir : Dir)
   | request (r : Nat)                 -- open / metadata / call request issued by the application (id r)
   | requestCut (r : Nat)              -- … whose exchange is interrupted by a transport failure
-  | kill                              -- the transport fails
-  | dial (ok : Bool)                  -- one redial attempt
+  | kill                              -- the transport fails (every resume exchange still unanswered is cut with it)
+  | dial (ok : Bool)                  -- the outcome of the redial attempt in progress
   | resume (sid : Nat) (a : ResumeAnswer)
   | closeStream (sid : Nat)
   | close
@@ -55,11 +56,12 @@ deriving Repr, DecidableEq
 structure St where
   status : Status := .connected
   inc : Nat := 1                       -- transports established so far
-  dials : Nat := 1                     -- connect attempts so far
+  dials : Nat := 1                     -- connect attempts started so far
   tokens : Nat := 1                    -- token source calls so far
   nextSid : Nat := 1
   streams : List Stream := []
   pending : List Nat := []             -- requests waiting for recovery, oldest first
+  pendingOpens : List Dir := []        -- stream opens waiting for recovery, oldest first
   sent : List (Nat × Nat) := []        -- (incarnation, request) that reached the broker, oldest first
   resumes : List (Nat × Nat × Nat) := []  -- (incarnation, stream id, alias) resume requests answered ok
   failed : List Nat := []              -- requests that returned an error to the caller
@@ -71,16 +73,30 @@ deriving Repr
 
 def live (s : Stream) : Bool := s.st = .opened || s.st = .resuming
 
-/-- the transport is lost: every attached stream waits for its resume -/
-def detach (s : Stream) : Stream := if s.st = .opened then { s with st := .resuming } else s
+def closeOne (err : Bool) (x : Stream) : Stream :=
+  if live x then { x with st := if err then .closedErr else .closedOk, closedEv := x.closedEv + 1 } else x
+
+/-- the connection is closed under a live stream: the stream ends without a notification of its own -/
+def endWithConn (x : Stream) : Stream := if live x then { x with st := .closedConn } else x
+
+/-- the transport is lost: every attached stream waits for its resume on the next transport; a stream whose resume exchange was
+    still unanswered on this transport has that exchange cut and is closed with an error -/
+def detach (s : Stream) : Stream :=
+  match s.st with
+  | .opened => { s with st := .resuming }
+  | .resuming => closeOne true s
+  | _ => s
 
 def loseTransport (s : St) : St :=
   match s.status with
-  | .connected => { s with status := .reconnecting, disc := s.disc + 1, streams := s.streams.map detach }
+  | .connected => { s with status := .reconnecting, disc := s.disc + 1, streams := s.streams.map detach,
+                            dials := s.dials + 1, tokens := s.tokens + 1 }   -- the first redial attempt starts at once
   | _ => s
 
-def closeOne (err : Bool) (x : Stream) : Stream :=
-  if live x then { x with st := if err then .closedErr else .closedOk, closedEv := x.closedEv + 1 } else x
+/-- streams opened by the requests that waited for the recovery -/
+def openPending (next : Nat) : List Dir → List Stream
+  | [] => []
+  | d :: ds => { sid := next, dir := d, streamAlias := next } :: openPending (next + 1) ds
 
 def updStream (sid : Nat) (f : Stream → Stream) (l : List Stream) : List Stream :=
   l.map (fun x => if x.sid = sid then f x else x)
@@ -91,7 +107,8 @@ def step (s : St) : Ev → St
     | .connected =>
       { s with nextSid := s.nextSid + 1,
                streams := s.streams ++ [{ sid := s.nextSid, dir := d, streamAlias := s.nextSid }] }
-    | _ => s
+    | .reconnecting => { s with pendingOpens := s.pendingOpens ++ [d] }
+    | .closed => s
   | .request r =>
     match s.status with
     | .connected => { s with sent := s.sent ++ [(s.inc, r)] }
@@ -107,9 +124,11 @@ def step (s : St) : Ev → St
     match s.status with
     | .reconnecting =>
       if ok then
-        { s with status := .connected, inc := s.inc + 1, dials := s.dials + 1, tokens := s.tokens + 1, reconn := s.reconn + 1,
-                 sent := s.sent ++ s.pending.map (fun r => (s.inc + 1, r)), pending := [] }
-      else { s with dials := s.dials + 1, tokens := s.tokens + 1 }
+        { s with status := .connected, inc := s.inc + 1, reconn := s.reconn + 1,
+                 sent := s.sent ++ s.pending.map (fun r => (s.inc + 1, r)), pending := [],
+                 streams := s.streams ++ openPending s.nextSid s.pendingOpens, nextSid := s.nextSid + s.pendingOpens.length,
+                 pendingOpens := [] }
+      else { s with dials := s.dials + 1, tokens := s.tokens + 1 }   -- the attempt failed: the next one starts (after the back-off)
     | _ => s
   | .resume sid a =>
     match s.status with
@@ -119,7 +138,6 @@ def step (s : St) : Ev → St
         | .ok => { s with streams := updStream sid (fun x => { x with st := .opened, resumedEv := x.resumedEv + 1 }) s.streams,
                           resumes := s.resumes ++ (s.streams.filter (fun x => x.sid = sid)).map (fun x => (s.inc, x.sid, x.streamAlias)) }
         | .refused => { s with streams := updStream sid (closeOne true) s.streams }
-        | .cut => loseTransport { s with streams := updStream sid (closeOne true) s.streams }
       else s
     | _ => s
   | .closeStream sid =>
@@ -129,8 +147,9 @@ def step (s : St) : Ev → St
   | .close =>
     match s.status with
     | .closed => s
-    | _ => { s with status := .closed, streams := s.streams.map (closeOne false), failed := s.failed ++ s.pending, pending := [],
-                    disconnectSent := s.disconnectSent + 1 }
+    | st => { s with status := .closed, streams := s.streams.map endWithConn, failed := s.failed ++ s.pending, pending := [],
+                     pendingOpens := [], disconnectSent := s.disconnectSent + 1,
+                     disc := if st = .connected then s.disc + 1 else s.disc }   -- the run loop of a live connection ends: disconnected
 
 def run (s : St) (evs : List Ev) : St := evs.foldl step s
 
@@ -139,14 +158,21 @@ def outages : St → List Ev → Nat
   | _, [] => 0
   | s, e :: es => (if s.status = .connected ∧ (step s e).status = .reconnecting then 1 else 0) + outages (step s e) es
 
+/-- Close calls that ended a live (connected) connection: its run loop ends, which is reported as a disconnection too -/
+def liveCloses : St → List Ev → Nat
+  | _, [] => 0
+  | s, e :: es => (if s.status = .connected ∧ e = .close then 1 else 0) + liveCloses (step s e) es
+
 /-- successful recoveries in an event history (what `reconn` should count) -/
 def recoveries : St → List Ev → Nat
   | _, [] => 0
   | s, e :: es => (if s.status = .reconnecting ∧ (step s e).status = .connected then 1 else 0) + recoveries (step s e) es
 
-/-- dial attempts in an event history that were actually performed -/
+/-- redial attempts started in an event history: one when an outage begins, one more after every failed attempt -/
 def attempts : St → List Ev → Nat
   | _, [] => 0
-  | s, e :: es => (match e with | .dial _ => if s.status = .reconnecting then 1 else 0 | _ => 0) + attempts (step s e) es
+  | s, e :: es =>
+    (if s.status = .connected ∧ (step s e).status = .reconnecting then 1 else 0) +
+    (match e with | .dial false => if s.status = .reconnecting then 1 else 0 | _ => 0) + attempts (step s e) es
 
 end Iscp.ConnM
